@@ -107,6 +107,29 @@ def run_find(ctx, p):
         if p.get(h) is not None:
             kw[h] = p[h]
     Mm = ctx.ms.mofun
+    hist = p.get('history')
+    if hist == 'elements-changed':
+        # HISTORY: a different structure with byte-identical coordinates and cell but other elements (an isostructural framework) is
+        # searched first; the search under test must not be influenced by it
+        uniq = sorted(set(els))
+        nxt = {e: uniq[(uniq.index(e) + 1) % len(uniq)] for e in uniq}
+        st0, _ = make_structure(ctx, [nxt[e] for e in els], rows, cell, perm=p.get('perm'))
+        Mm.find_pattern_in_structure(st0, pat, atol=atol, return_positions_and_quats=True, **kw)
+    elif hist == 'moved-in-place':
+        # HISTORY: the same structure OBJECT was searched before at another placement; its coordinates were then edited in place
+        # (same array object, as Atoms.translate / positions[i] += ... do)
+        d = p.get('moved_by', (0.31, 0.17, 0.23))
+        shift0 = []
+        for k in range(3):
+            v = shift[k] + d[k]
+            if v >= 1.0:
+                v = v - 1.0
+            shift0.append(v)
+        rows0 = place(ctx, pos, cell, shift0)
+        keep = st.positions.copy()
+        st.positions[:] = np.array([rows0[i] for i in order], dtype=st.positions.dtype)
+        Mm.find_pattern_in_structure(st, pat, atol=atol, return_positions_and_quats=True, **kw)
+        st.positions[:] = keep
     res = Mm.find_pattern_in_structure(st, pat, atol=atol, return_positions_and_quats=True, **kw)
     idx, mpos, quats = res
     idx = [tuple(int(i) for i in t) for t in idx]
@@ -171,6 +194,11 @@ def std_instances(tier, seed, families=('face',)):
         add(f"find:S27:axis{ax}:two-occurrences-sharing-atoms", struct='S27', axes=[ax], other=(0.15, 0.8, 0.45), cost=10)
         add(f"find:S27b:axis{ax}:two-occurrences-sharing-atoms:scan-order-against-index-order", struct='S27b', axes=[ax], other=(0.15, 0.8, 0.45), cost=10)
         add(f"find:S27c:axis{ax}:two-occurrences-sharing-atoms", struct='S27c', axes=[ax], other=(0.65, 0.1, 0.45), cost=10)
+    # histories: an earlier search must not influence a later one (same object edited in place / another structure with the same coordinates)
+    add("find:S1:axis0:history:moved-in-place", struct='S1', axes=[0], other=(0, 0.3, 0.6), history='moved-in-place', cost=40)
+    add("find:S2:axis2:history:moved-in-place", struct='S2', axes=[2], other=(0.2, 0.3, 0), history='moved-in-place', cost=40)
+    add("find:S1:axis1:history:elements-changed", struct='S1', axes=[1], other=(0.8, 0, 0.6), history='elements-changed', cost=30)
+    add("find:S3:axis2:history:elements-changed", struct='S3', axes=[2], other=(0.1, 0.5, 0), history='elements-changed', cost=30)
     add("find:S7:axis0:ch4-random-choice", struct='S7', axes=[0], other=(0, 0.4, 0.9), cost=60)
     add("find:S7:axis2:ch4-swapped-storage-order", struct='S7', axes=[2], other=(0.3, 0.4, 0), perm=[0, 2, 1, 3, 4], cost=60)
     add("find:S12:axis1:swapped-storage-order", struct='S12', axes=[1], other=(0.3, 0, 0.9), perm=[0, 2, 1, 3, 5, 4], cost=30)
